@@ -30,7 +30,8 @@ def cfg : Cfg :=
   { gated := Bpmn.Gen.C10.eventsGatedByActive.getD true
     once := Bpmn.Gen.C10.cancellationOnce.getD true
     refuse := Bpmn.Gen.C10.cancelRefusedWhilePending.getD true
-    share := Bpmn.Gen.C10.listenersShareWaitGroup.getD true }
+    share := Bpmn.Gen.C10.listenersShareWaitGroup.getD true
+    early := Bpmn.Gen.C10.activeSetBeforeNextAction.getD true }
 
 structure Seen where
   h : Nat := 0
@@ -63,10 +64,16 @@ def blockedBy (host : String) (points : List String) (l : Label) : Bool :=
     else if p == "harness.before_next_action" then
       -- the host's harness is parked between `active := 1` and `activity.NextAction`; the harness of the task on an
       -- exception path would park there too, so a listener that moves on shows nothing until the release
-      (match l with
-       | .harnessCall => true
-       | .move _ => true
-       | _ => false)
+      (if cfg.early then
+        (match l with
+         | .harnessCall => true
+         | .move _ => true
+         | _ => false)
+       else
+        -- both activation statements have run; what is parked is the creation of the forwarder goroutine
+        (match l with
+         | .forward => true
+         | _ => false))
     else if p == "catch.process_event" then
       (match l with
        | .catchTake _ => true
